@@ -552,8 +552,13 @@ class io_epoll_context::read_sender {
       UNIFEX_ASSERT(context_.is_running_on_io_thread());
 
       auto result = readv(fd_, buffer_, 1);
+      if (result < 0) {
+        // readv() reports failure as -1 + errno; the code below works with
+        // negated error codes
+        result = -errno;
+      }
 
-      if (result == -EAGAIN || result == -EWOULDBLOCK || result == -EPERM) {
+      if (result == -EAGAIN || result == -EWOULDBLOCK) {
         if constexpr (is_stop_ever_possible) {
           stopCallback_.construct(
               get_stop_token(receiver_), cancel_callback{*this});
@@ -625,6 +630,9 @@ class io_epoll_context::read_sender {
           self.context_.epollFd_.get(), EPOLL_CTL_DEL, self.fd_, &event);
 
       auto result = readv(self.fd_, self.buffer_, 1);
+      if (result < 0) {
+        result = -errno;
+      }
       UNIFEX_ASSERT(result != -EAGAIN);
       UNIFEX_ASSERT(result != -EWOULDBLOCK);
       if (result == -ECANCELED) {
@@ -781,8 +789,13 @@ class io_epoll_context::write_sender {
       UNIFEX_ASSERT(context_.is_running_on_io_thread());
 
       auto result = writev(fd_, buffer_, 1);
+      if (result < 0) {
+        // writev() reports failure as -1 + errno; the code below works with
+        // negated error codes
+        result = -errno;
+      }
 
-      if (result == -EAGAIN || result == -EWOULDBLOCK || result == -EPERM) {
+      if (result == -EAGAIN || result == -EWOULDBLOCK) {
         if constexpr (is_stop_ever_possible) {
           stopCallback_.construct(
               get_stop_token(receiver_), cancel_callback{*this});
@@ -855,6 +868,9 @@ class io_epoll_context::write_sender {
       }
 
       auto result = writev(self.fd_, self.buffer_, 1);
+      if (result < 0) {
+        result = -errno;
+      }
       UNIFEX_ASSERT(result != -EAGAIN);
       UNIFEX_ASSERT(result != -EWOULDBLOCK);
       if (result == -ECANCELED) {
